@@ -20,10 +20,10 @@ import (
 // C16 — consumer endpoint selection is a deterministic, documented function of metadata.
 
 var (
-	c16Bindings  = []string{spsim.BindPost, spsim.BindRedirect, spsim.BindArtifact, "urn:example:binding:other"}
+	c16Bindings  = []string{spsim.BindPost, spsim.BindRedirect, spsim.BindArtifact, "urn:oasis:names:tc:SAML:2.0:bindings:HTTP-POST-SimpleSign"}
 	c16Indexes   = []string{"0", "1", "2", "7", "65535"}
 	c16Defaults  = []string{"", "true", "false", "1", "0"}
-	c16Requested = []string{"", spsim.BindPost, spsim.BindRedirect, spsim.BindArtifact, "urn:example:binding:other", spsim.BindPAOS}
+	c16Requested = []string{"", spsim.BindPost, spsim.BindRedirect, spsim.BindArtifact, "urn:oasis:names:tc:SAML:2.0:bindings:HTTP-POST-SimpleSign", spsim.BindPAOS}
 	c16IndexVal  = []int{0, 1, 2, 7, 65535}
 )
 
